@@ -42,30 +42,37 @@ def _ensure_sup(d):
         _W['started'] = True
 
 
-def attr_batch(ent, inputs, found):
-    """run inputs through attrdrv 'B'; on a crash bisect to the single input. found: list of (input, crashkey, log)"""
+MAXFOUND = 4          # per job; a change that breaks every input is reported from a handful of them, the rest of the space is then left unexplored
+STOP = '/dev/shm/verif-c05-stop-%d' % os.getppid()
+
+
+def attr_batch(ent, inputs, found, alone=False):
+    """run inputs through attrdrv 'B'; on a crash or a hang go on behind the answers already received and bisect the (at most 32) inputs the driver
+    had not yet answered down to the single input. found: list of (input, crashkey, log)"""
     d = _W['d']
-    if not inputs:
+    if not inputs or len(found) >= MAXFOUND or os.path.exists(STOP):
         return
     if d.recycle_if_big():
         _W['started'] = False
     try:
         _ensure_sup(d)
         d.cmd('E %s 0' % ent)
-        d.cmd('B ' + ' '.join((x.encode('latin1').hex() or '-') for x in inputs), timeout=60 + len(inputs) // 10)
+        d.cmd('B ' + ' '.join((x.encode('latin1').hex() or '-') for x in inputs), timeout=(10 if len(inputs) <= 32 else 30) + len(inputs) // 100)
         return
     except drv.Crash as e:
         d.kill()
         if len(inputs) == 1:
-            # replay alone once more before reporting
-            try:
-                _ensure_sup(d)
-                d.cmd('E %s 0' % ent)
-                d.cmd('B ' + (inputs[0].encode('latin1').hex() or '-'), timeout=60)
-                found.append((inputs[0], ('flaky', 'not-reproduced'), ''))
-            except drv.Crash as e2:
-                d.kill()
-                found.append((inputs[0], e2.key(), e2.log[-2500:].decode('latin1')))
+            if not alone:
+                return attr_batch(ent, inputs, found, alone=True)      # replay alone once more before reporting
+            found.append((inputs[0], e.key(), e.log[-2500:].decode('latin1')))
+            if len(found) >= MAXFOUND:
+                open(STOP, 'w').close()
+            return
+        if len(inputs) > 32:
+            n = min(e.answered, len(inputs) - 1)     # the driver flushes every 32 answers: the culprit is among the next 32
+            n -= n % 32
+            attr_batch(ent, inputs[n:n + 32], found)
+            attr_batch(ent, inputs[n + 32:], found)
             return
         mid = len(inputs) // 2
         attr_batch(ent, inputs[:mid], found)
@@ -282,6 +289,8 @@ def main():
                 for pre in itertools.product(ALPHA, repeat=2):
                     jobs.append((kind, ent, n, ''.join(pre)))
     chk.bounds['attr_seam'] = {'max_len': L, 'kinds': len(kinds), 'strings_per_kind': sum(len(ALPHA) ** n for n in range(L + 1)) * 2}
+    if os.path.exists(STOP.replace(str(os.getppid()), str(os.getpid()))):
+        os.unlink(STOP.replace(str(os.getppid()), str(os.getpid())))
     with mp.get_context('fork').Pool(common.NCPU, initializer=_init, initargs=(lib.dir,)) as pool:
         for kind, n, found in pool.imap_unordered(attr_job, jobs):
             chk.count(states=n, transitions=n)
@@ -293,6 +302,10 @@ def main():
                               {'seam': 'attr', 'entity': 'E_' + kind.upper(), 'input': inp, 'log': log[-1500:]})
             if chk.deadline.expired():
                 break
+    stopf = STOP.replace(str(os.getppid()), str(os.getpid()))
+    if os.path.exists(stopf):
+        os.unlink(stopf)
+        chk.cap('attribute seam: exploration stopped after %d reports in one job (the remaining strings were not run)' % MAXFOUND)
     chk.sample({'seam': 'attr', 'kind': 'list_int', 'input': "(1,'"})
     # ---- (a') instance bodies + (b) mutations through the file seam
     sp = c01.Space(fam, args.tier)
